@@ -64,11 +64,37 @@ def shapes():
            ("Equals", ("Store", ("Store", fin[3][0], ("lit", 0, BV1), ("lit", 1, BV8)), ("lit", 1, BV1), ("lit", 1, BV8)), fin[0][1]),
            ("Equals", ("Select", fin[1][0], ("lit", 1, BV1)), fx),
            ("Equals", ("Store", fin[1][0], ("lit", 1, BV1), ("lit", 1, BV8)), fa)]
-    return [Shape(t) for t in sh]
+    # a bound variable that occurs only inside an array value (default or stored value): the quantifier is not vacuous
+    B2 = ("BV", 2)
+    xq, iq, jq = S("xq", B2), S("iq", B2), S("jq", B2)
+    one2 = ("lit", 1, B2)
+    sh += [("forall", [("xq", B2)], ("Equals", ("Select", ("Array", ("type", B2), xq), iq), one2)),
+           ("exists", [("xq", B2)], ("Equals", ("Select", ("Array", ("type", B2), ("lit", 0, B2), ("dict", (one2, xq))), iq), jq)),
+           ("forall", [("xq", B2)], ("exists", [("iq", B2)], ("Equals", ("Select", ("Store", ("Array", ("type", B2), xq), iq, jq), iq), xq))),
+           ("And", ("Equals", iq, jq), ("exists", [("xq", B2)], ("Not", ("Equals", ("Array", ("type", B2), xq), ("Array", ("type", B2), jq)))))]
+    out = [Shape(t) for t in sh]
+    # two simplifications in one environment: a store over an array value, then another store over the same value
+    AV2 = AV(0, (1, 10))
+    p_ = S("p", INT)
+    for first, second in [(("Equals", ("Store", AV2, L(2), p_), a), ("Equals", ("Store", AV2, L(3), L(30)), a)),
+                          (("Equals", ("Store", AV2, L(2), L(20)), a), ("Equals", ("Select", ("Store", AV2, L(3), L(30)), L(2)), x)),
+                          (("Equals", ("Select", ("Store", AV2, i, x), j), x), ("Equals", ("Store", AV2, j, L(5)), a)),
+                          (("Equals", ("Store", AV2, L(1), L(11)), a), ("Equals", ("Select", AV2, L(1)), x))]:
+        out.append(Shape(("after", first, second)))
+    return out
 
 
 def _job(shape):
+    seq = isinstance(shape.t, tuple) and shape.t[0] == "after"
+    if seq:
+        first_t, second_t = shape.t[1], shape.t[2]
+        shape = Shape(second_t)
+        shape.tag = "%s after simplify(%s)" % (proc.shape_str(second_t), proc.shape_str(first_t))
+
     def call(w, it, f):
+        if seq:
+            it.call(it.getattr(proc.build_shape(w, first_t), "simplify"), [])
+            return it.call(it.getattr(f, "simplify"), [])
         simp = w.new_walker("pysmt.simplifier.Simplifier", w.env)
         return it.call(it.getattr(simp, "simplify"), [f])
 
@@ -91,7 +117,7 @@ def _job(shape):
             return proc.ProcResult(shape, "vacuous", "no assignment evaluated")
         return proc.ProcResult(shape, "valid", "%d assignments" % n, sc.node_str(w, r))
     res = proc.run_proc(shape, call, post=post, services="full")
-    return [(repr(shape), r.kind, str(r.detail), r.result) for r in res]
+    return [(getattr(shape, "tag", None) or repr(shape), r.kind, str(r.detail), r.result) for r in res]
 
 
 def run(ctx):
